@@ -72,9 +72,9 @@ Qed.
 
 Ltac len_from H := first [apply Nat.eqb_eq in H | apply Nat.leb_le in H | idtac].
 
-Lemma nv_node : forall pk idx n attrs kids sub, NV sub -> NV (val_node pk idx n attrs kids sub).
+Lemma nv_node : forall fx pk idx n attrs kids sub, NV sub -> NV (val_node fx pk idx n attrs kids sub).
 Proof.
-  intros pk idx n attrs kids sub Hsub. unfold val_node.
+  intros fx pk idx n attrs kids sub Hsub. unfold val_node.
   destruct (vclass_of n).
   - apply nv_chk; [discriminate|exact Hsub].
   - destruct (length pk =? 3) eqn:E; cbn; [|apply nv_one; discriminate].
@@ -97,7 +97,11 @@ Proof.
     assert (H1 : 0 < length pk) by (destruct E as [E|E]; len_from E; lia).
     apply nv_nth; [exact H1|].
     destruct (length pk =? 3) eqn:E3; [|apply nv_nil]. len_from E3. apply nv_first; [lia|apply nv_nil].
-  - apply nv_nil.
+  - destruct fx; [|apply nv_nil]. destruct (n =? "rem")%string.
+    + destruct (length pk =? 3) eqn:E; cbn; [|apply nv_one; discriminate].
+      len_from E. apply nv_nth; [lia|apply nv_nil].
+    + destruct (3 <=? length pk) eqn:E; cbn; [|apply nv_one; discriminate].
+      len_from E. apply nv_nth; [lia|apply nv_nil].
   - destruct (length pk =? 3) eqn:E; cbn; [|apply nv_one; discriminate].
     len_from E. apply nv_nth; [lia|]. apply nv_first; [lia|apply nv_nil].
   - exact Hsub.
@@ -116,9 +120,9 @@ Proof.
   - apply nv_nil.
 Qed.
 
-Lemma nv_struct : forall x pk idx, NV (val_struct pk idx x).
+Lemma nv_struct : forall fx x pk idx, NV (val_struct fx pk idx x).
 Proof.
-  induction x as [ns n attrs kids IH|s|s] using xml_ind2; intros pk idx; cbn [val_struct]; try apply nv_nil.
+  intro fx. induction x as [ns n attrs kids IH|s|s] using xml_ind2; intros pk idx; cbn [val_struct]; try apply nv_nil.
   destruct (negb (ns =? MATHML_NS)%string); [apply nv_nil|].
   apply nv_node.
   generalize 0 as i. generalize (mkids kids) as mk.
@@ -126,9 +130,9 @@ Proof.
   destruct (is_mathml k); [apply nv_app; [apply Hk|apply IHr]|apply IHr].
 Qed.
 
-Lemma nv_struct_kids : forall ks mk i, NV (val_struct_kids mk ks i).
+Lemma nv_struct_kids : forall fx ks mk i, NV (val_struct_kids fx mk ks i).
 Proof.
-  induction ks as [|k r IH]; intros mk i; cbn; [apply nv_nil|].
+  intro fx. induction ks as [|k r IH]; intros mk i; cbn; [apply nv_nil|].
   destruct (is_mathml k); [apply nv_app; [apply nv_struct|apply IH]|apply IH].
 Qed.
 
@@ -166,9 +170,9 @@ Proof.
 Qed.
 
 (** The validator's own three passes never call through a null handle, whatever the tree. *)
-Theorem val_null_safe : forall vars units root, ~ In V_NULL_DEREF (val_math_env vars units root).
+Theorem val_null_safe : forall fx vars units root, ~ In V_NULL_DEREF (val_math_env_gen fx vars units root).
 Proof.
-  intros vars units root. unfold val_math_env.
+  intros fx vars units root. unfold val_math_env_gen.
   destruct (negb (is_mathml_el "math" root)); [apply nv_one; discriminate|].
   apply nv_app; [|apply nv_app; [apply nv_cicn|apply nv_struct_kids]].
   induction (kids_of root) as [|k r IH]; [apply nv_nil|apply nv_app; [apply nv_supported|exact IH]].
@@ -199,8 +203,11 @@ Definition w_unvalidated_bvar : xml :=
   m_math [m_eqn (m_apply "diff" [m_el "bvar" [m_leaf "piecewise"]; m_ci "x"]) (m_ci "y")].
 Definition w_not_equation_min : xml := m_math [m_apply "plus" [m_ci "x"; m_leaf "min"]].
 
+(** the code as it is now ([fx] = false) *)
+Definition val_now (root : xml) : list rule := val_math_env_gen false std_vars std_units root.
+Definition val_fixed (root : xml) : list rule := val_math_env_gen true std_vars std_units root.
 Definition gap (root : xml) (s : site) : Prop :=
-  val_math root = [] /\ ana_math root = Crash s.
+  val_now root = [] /\ ana_math root = Crash s.
 
 Lemma gap_min_no_operand : gap w_min_no_operand S_NodeNull.           Proof. split; vm_compute; reflexivity. Qed.
 Lemma gap_max_no_operand : gap w_max_no_operand S_NodeNull.           Proof. split; vm_compute; reflexivity. Qed.
@@ -215,7 +222,13 @@ Lemma gap_unvalidated_degree : gap w_unvalidated_degree S_EqnNotPrintable. Proof
 Lemma gap_unvalidated_bvar : gap w_unvalidated_bvar S_ChildNodeOfEmpty. Proof. split; vm_compute; reflexivity. Qed.
 Lemma gap_not_equation_min : gap w_not_equation_min S_ExprNotPrintable. Proof. split; vm_compute; reflexivity. Qed.
 
-Lemma gap_is_refutation : forall root s, gap root s -> val_math root = [] /\ ana root = None.
+(** what fixes/C01-mathml-arity.diff closes: the witnesses about min / max / rem are rejected *)
+Lemma arity_fix_closes :
+  val_fixed w_min_no_operand <> [] /\ val_fixed w_max_no_operand <> [] /\ val_fixed w_rem_no_operand <> []
+  /\ val_fixed w_min_one_operand <> [] /\ val_fixed w_not_equation_min <> [].
+Proof. repeat split; vm_compute; discriminate. Qed.
+
+Lemma gap_is_refutation : forall root s, gap root s -> val_now root = [] /\ ana root = None.
 Proof. intros root s [Hv Ha]. split; [exact Hv|]. unfold ana, ana_node_opt, ana_math in *. now rewrite Ha. Qed.
 
 (* ------------------------------------------------------------------------------------------------ std::stod in the power exponent *)
@@ -240,12 +253,12 @@ Definition w_pow_cn_range : xml := x_eq (m_apply "power" [m_ci "y"; m_cn_e "1" "
 Lemma stod_unguarded_refuted :
   (* an initial_value that names a variable *)
   (initial_value_accepted std_vars "y" = true /\ stod "y" = StodInvalidArgument
-   /\ val_math w_pow_iv_name = [] /\ pow_math_env std_vars [("z", "y")] w_pow_iv_name = Some StodInvalidArgument)
+   /\ val_now w_pow_iv_name = [] /\ pow_math_env std_vars [("z", "y")] w_pow_iv_name = Some StodInvalidArgument)
   (* an initial_value that is a CellML real outside the range of double *)
   /\ (initial_value_accepted std_vars "1e400" = true /\ stod "1e400" = StodOutOfRange
       /\ pow_math_env std_vars [("z", "1e400")] w_pow_iv_name = Some StodOutOfRange)
   (* an e-notation cn whose parts are fine one by one *)
-  /\ (val_math w_pow_cn_range = [] /\ pow_math_env std_vars [] w_pow_cn_range = Some StodOutOfRange).
+  /\ (val_now w_pow_cn_range = [] /\ pow_math_env std_vars [] w_pow_cn_range = Some StodOutOfRange).
 Proof. repeat split; vm_compute; reflexivity. Qed.
 
 Lemma pow_ok_example : pow_math_env std_vars [("z", "2")] w_pow_iv_name = None /\ ana w_pow_iv_name <> None.
